@@ -175,6 +175,9 @@ func (g *reqGen) item(e elem, pos int, kind, class string, src source) placement
 		// more than one blank between scheme and credentials
 		p.Sep = []string{"  ", "   "}[g.rng.IntN(2)]
 	}
+	if src.Kind == "header" && src.Scheme != "" && g.rng.IntN(5) == 0 {
+		p.SchemeOnWire = []string{strings.ToLower(src.Scheme), strings.ToUpper(src.Scheme)}[g.rng.IntN(2)]
+	}
 	return p
 }
 
@@ -374,7 +377,11 @@ func (r lreq) wire(path string) wire {
 		case 'H':
 			v := it.Value
 			if it.Scheme != "" {
-				v = it.Scheme + it.sep() + it.Value
+				scheme := it.Scheme
+				if it.SchemeOnWire != "" {
+					scheme = it.SchemeOnWire
+				}
+				v = scheme + it.sep() + it.Value
 			}
 			w.Headers[name] = v
 		case 'C':
